@@ -389,6 +389,13 @@ def extract_items(src):
 
 # ------------------------------------------------------------------ translation
 
+VEC = {"Point2": 2, "Vector2": 2, "UnitVec2": 2, "Point3": 3, "Vector3": 3, "UnitVec3": 3}
+
+
+def vdim(t):
+    return VEC.get((t or "").replace("&", "").strip())
+
+
 F64_METHODS = {"abs": "nabs", "sqrt": "nsqrt", "sin": "nsin", "cos": "ncos", "asin": "nasin", "acos": "nacos",
                "floor": "nfloor", "ceil": "nceil"}
 
@@ -439,6 +446,8 @@ class Tr:
         t = (t or "").strip()
         if t in ("Self", "&Self"):
             return self.owner
+        if t.startswith("&") and t[1:].strip() in VEC:
+            return t[1:].strip()
         return t
 
     # ---- type inference (coarse: 'f64', 'bool', struct/enum names, 'Option<..>', '?')
@@ -457,7 +466,14 @@ class Tr:
         if k == "bin":
             if e[1] in ("<", "<=", ">", ">=", "==", "!=", "&&", "||"):
                 return "bool"
-            return self.ty(e[2])
+            ta, tb = self.ty(e[2]), self.ty(e[3])
+            d = vdim(ta) or vdim(tb)
+            if d:
+                # point - point, point +- vector, vector +- vector, vector * / scalar: all plain coordinate tuples in the model
+                if e[1] in ("+", "-") and (ta or "").startswith("Point") and not (tb or "").startswith("Point"):
+                    return "Point%d" % d
+                return "Vector%d" % d
+            return ta
         if k == "path":
             p = e[1]
             if len(p) == 1:
@@ -480,11 +496,18 @@ class Tr:
                         return self.norm_ty(ft)
             if e[2] in ("x", "y", "z"):
                 return "f64"
+            if e[2] == "coords" and vdim(t):
+                return "Vector%d" % vdim(t)
             return "?"
         if k == "mcall":
             t = self.ty(e[1])
             if t == "f64":
                 return "bool" if e[2] in ("is_nan", "is_finite") else "f64"
+            if vdim(t):
+                if e[2] in ("dot", "norm", "norm_squared", "magnitude"):
+                    return "f64"
+                if e[2] in ("cross", "normalize", "into_inner", "into", "clone"):
+                    return "Vector%d" % vdim(t)
             key = (t, e[2])
             if key in self.c.fn_index:
                 return self.norm_ty(self.c.fn_index[key][1])
@@ -494,6 +517,10 @@ class Tr:
             if p == ["Some"]:
                 return "Option<%s>" % self.ty(e[2][0])
             owner = self.norm_ty(p[0]) if len(p) == 2 else None
+            if len(p) == 2 and p[0] in VEC and p[1] in ("new", "from", "new_normalize", "new_unchecked"):
+                return p[0]
+            if len(p) == 2 and p[0] == "Unit" and p[1] in ("new_normalize", "new_unchecked"):
+                return self.ty(e[2][0])
             key = (owner, p[-1])
             if key in self.c.fn_index:
                 r = self.c.fn_index[key][1]
@@ -534,6 +561,9 @@ class Tr:
         if k == "tuple":
             return "(" + ", ".join(self.ex(x) for x in e[1]) + ")"
         if k == "neg":
+            d = vdim(self.ty(e[1]))
+            if d:
+                return "(neg%d %s)" % (d, self.ex(e[1]))
             return "(nneg %s)" % self.ex(e[1])
         if k == "not":
             return "(negb %s)" % self.ex(e[1])
@@ -547,6 +577,15 @@ class Tr:
             A, B = self.ex(a), self.ex(b)
             if op in ("&&", "||"):
                 return "(%s %s %s)" % ("andb" if op == "&&" else "orb", A, B)
+            tb = self.ty(b)
+            da, db = vdim(self.ty(a)), vdim(tb)
+            if da or db:
+                d = da or db
+                if op in ("+", "-") and da and db:
+                    return "(%s%d %s %s)" % ("add" if op == "+" else "sub", d, A, B)
+                if op in ("*", "/") and da and not db:
+                    return "(%s%d %s %s)" % ("scale" if op == "*" else "div", d, A, B)
+                raise Unsupported("vector operator %s between %s and %s" % (op, self.ty(a), tb))
             if ta != "f64":
                 raise Unsupported("binary %s on %s" % (op, ta))
             tbl = {"+": "nadd", "-": "nsub", "*": "nmul", "/": "ndiv", "%": "nfmod",
@@ -586,6 +625,10 @@ class Tr:
             t = self.ty(e[1])
             if t in self.c.structs:
                 return "(%s_%s %s)" % (t, e[2], self.ex(e[1]))
+            if vdim(t) == 3 and e[2] in ("x", "y", "z"):
+                return "(%s3 %s)" % (e[2], self.ex(e[1]))
+            if e[2] == "coords" and vdim(t):
+                return self.ex(e[1])
             if e[2] == "x":
                 return "(fst %s)" % self.ex(e[1])
             if e[2] == "y":
@@ -612,6 +655,21 @@ class Tr:
                 if name == "is_finite":
                     return "(nfinite %s)" % R
                 raise Unsupported("f64 method " + name)
+            d = vdim(t)
+            if d:
+                if name == "dot" and len(args) == 1:
+                    return "(dot%d %s %s)" % (d, R, self.ex(args[0]))
+                if name in ("norm", "magnitude") and not args:
+                    return "(norm%d %s)" % (d, R)
+                if name == "norm_squared" and not args:
+                    return "(nsq%d %s)" % (d, R)
+                if name == "cross" and d == 3 and len(args) == 1:
+                    return "(cross3 %s %s)" % (R, self.ex(args[0]))
+                if name == "normalize" and not args:
+                    return "(normalize%d %s)" % (d, R)
+                if name in ("into_inner", "into", "clone") and not args:
+                    return R
+                raise Unsupported("vector method " + name)
             key = (t, name)
             if key in self.c.fn_index:
                 self.c.calls.add(self.c.fn_index[key][0])
@@ -626,6 +684,20 @@ class Tr:
             if p == ["Err"]:
                 return "Err"
             owner = self.norm_ty(p[0]) if len(p) == 2 else None
+            if len(p) == 2 and p[0] in VEC:
+                d = VEC[p[0]]
+                if p[1] == "new" and len(args) == d:
+                    return "(%s)" % ", ".join(self.ex(a) for a in args) if d == 2 else "(mk3 %s)" % " ".join(self.ex(a) for a in args)
+                if p[1] in ("from", "new_unchecked") and len(args) == 1:
+                    return self.ex(args[0])
+                if p[1] == "new_normalize" and len(args) == 1:
+                    return "(normalize%d %s)" % (d, self.ex(args[0]))
+            if len(p) == 2 and p[0] == "Unit" and len(args) == 1:
+                d = vdim(self.ty(args[0]))
+                if d and p[1] == "new_normalize":
+                    return "(normalize%d %s)" % (d, self.ex(args[0]))
+                if d and p[1] == "new_unchecked":
+                    return self.ex(args[0])
             key = (owner, p[-1])
             if key in self.c.fn_index:
                 self.c.calls.add(self.c.fn_index[key][0])
@@ -781,8 +853,10 @@ class Tr:
             return "bool"
         if t in self.c.structs or t in self.c.enums:
             return t
-        if t in ("Vector2", "Point2"):
+        if vdim(t) == 2:
             return "(num * num)%type"
+        if vdim(t) == 3:
+            return "(num * num * num)%type"
         m = re.fullmatch(r"\((.+)\)", t)
         if m and "," in m.group(1):
             parts = [x.strip() for x in split_top(m.group(1))]
@@ -904,7 +978,7 @@ def translate_file(path, module, wanted, types_import, extra_structs=None, extra
         visit(n)
     lines = ["(* GENERATED by tools/rs2v.py from %s -- do not edit *)" % path,
              "From Coq Require Import ZArith Bool List.",
-             "From EG Require Import Num.Num %s." % types_import,
+             "From EG Require Import Num.Num Lib.Vec %s." % types_import,
              "Section Gen.", "Context {N : Num}."]
     for cname, cexpr in sorted(consts.items()):
         try:
